@@ -180,7 +180,7 @@ def fd_jacobian(q, rel=1e-3, skip=None, max_cols=None, rng=None):
                 line.append(f())
         d4 = np.diff(np.array(line), n=4, axis=0)
         with np.errstate(all="ignore"):
-            eta4 = np.sqrt(np.mean(d4**2, axis=0) / 70.0)
+            eta4 = np.max(np.abs(d4), axis=0) / 4.0  # (the fourth difference of independent noise has 8.4 times its standard deviation)
         eta = np.maximum(eta, np.where(np.isfinite(eta4), eta4, 0.0))
     for w in c._inputs:
         I.raw(w)[...] = saved[w]
@@ -278,6 +278,50 @@ def fd_jacobian(q, rel=1e-3, skip=None, max_cols=None, rng=None):
         colmax, colerr = col_stats()
         bad = [i for i in active if colmax[i] > 1e-9 * big and colerr[i] > 0.02 * colmax[i]]
         err[:, bad] = np.inf
+        # cross-check with a plain central difference at a step a thousand times smaller (immune to a bend or kink of the function a
+        # little away from the point, limited only by the round-off level of the function): where the extrapolated value is outside
+        # what that allows, the small-step value and its honest error bar are used instead
+        lvl_rows = np.maximum(eta, np.finfo(float).eps * np.abs(f00))
+        hs = hlast * 1e-3
+
+        def plain(step):
+            J = np.full_like(est, np.nan)
+            for i in active:
+                x0 = x.flat[i]
+                x.flat[i] = x0 + step[i]
+                fp = f()
+                x.flat[i] = x0 - step[i]
+                fm = f()
+                x.flat[i] = x0
+                J[:, i] = (fp - fm) / (2 * step[i])
+            return J
+
+        Jt, Jt2 = plain(hs), plain(2.0 * hs)
+        with np.errstate(invalid="ignore", divide="ignore"):
+            nb = 4.0 * lvl_rows[:, None] / hs[None, :]
+            spread = np.abs(Jt - Jt2)
+            # the two small-step values must agree with each other (they do not where the computed function is a staircase at that
+            # scale, e.g. exp(a) - 1 for a ~ 1e-11: then the small steps say nothing)
+            selfcons = spread <= 1e-4 * np.maximum(np.abs(Jt), np.abs(Jt2)) + 1e-9 * colmax[None, :]
+            off = selfcons & (np.abs(est - Jt) > 3.0 * nb + 3.0 * spread + 20.0 * np.where(np.isfinite(err), err, 0.0) + 1e-6 * colmax[None, :])
+        off &= np.isfinite(Jt)
+        if off.any():
+            est = np.where(off, Jt, est)
+            err = np.where(off, nb + 3.0 * spread, err)
+        # a computed function that does not move at all over a step across which its slope predicts a change far above its own
+        # resolution is a staircase there (rounding of an intermediate quantity): differences say nothing about its slope
+        tt = hlast * 1e-6
+        for i in active:
+            x0 = x.flat[i]
+            x.flat[i] = x0 + tt[i]
+            ft = f()
+            x.flat[i] = x0
+            with np.errstate(invalid="ignore"):
+                pred = np.abs(est[:, i]) * tt[i]
+                stair = (ft == f00) & (pred > 100.0 * np.finfo(float).eps * (np.abs(f00) + np.abs(est[:, i]) * hs[i]))
+            err[stair, i] = np.inf
+            res.stairs = getattr(res, "stairs", 0) + int(stair.sum())
+        res.replaced = getattr(res, "replaced", 0) + int(off.sum())
         f()  # restore outputs at the nominal point
         # smooth: the one-sided mismatch is h*f'' and falls by 4 between h and h/4; at a kink it stays
         kink = (s2 > 0.5 * s0) & (s2 > 1e-4 * np.maximum(np.nanmax(np.abs(est), initial=0.0), 1e-300))
